@@ -20,11 +20,19 @@
 #endif
 #endif
 
+#if defined(__has_feature)
+#if __has_feature(memory_sanitizer)
+#define VH_MSAN 1
+void __msan_poison(const volatile void *a, size_t size);
+void __msan_unpoison(const volatile void *a, size_t size);
+#endif
+#endif
+
 #ifdef VH_GCOV
 void __gcov_dump(void);
 #endif
 
-#ifndef VH_ASAN
+#if !defined(VH_ASAN) && !defined(VH_MSAN)
 /* builds without a sanitizer runtime (coverage build): the allocation ledger is not available */
 size_t __sanitizer_get_current_allocated_bytes(void);
 size_t
@@ -431,6 +439,8 @@ vh_poison(const void *p, size_t n)
 {
 #ifdef VH_ASAN
     __asan_poison_memory_region(p, n);
+#elif defined(VH_MSAN)
+    __msan_poison(p, n);
 #else
     (void)p;
     (void)n;
@@ -442,6 +452,8 @@ vh_unpoison(const void *p, size_t n)
 {
 #ifdef VH_ASAN
     __asan_unpoison_memory_region(p, n);
+#elif defined(VH_MSAN)
+    __msan_unpoison(p, n);
 #else
     (void)p;
     (void)n;
